@@ -168,13 +168,23 @@ def compdb():
                     vlsrc = a[2:]
         # keep the verilated headers (hextb.cpp includes them)
         vl_keep = _cache_path('vlinc', 'dir')
-        if os.path.isdir(vl_keep):
-            shutil.rmtree(vl_keep)
-        os.makedirs(vl_keep)
+        # concurrent checks on the same tree share this directory: it is filled aside and moved into place in one step, and a complete
+        # one is never removed (another process may be compiling against it)
+        if not os.path.exists(os.path.join(vl_keep, '.complete')):
+            os.makedirs(os.path.dirname(vl_keep), exist_ok=True)
+            aside = tempfile.mkdtemp(prefix='vlinc-', dir=os.path.dirname(vl_keep))
+            if vlsrc and os.path.isdir(vlsrc):
+                for f in os.listdir(vlsrc):
+                    if f.endswith('.h'):
+                        shutil.copy(os.path.join(vlsrc, f), aside)
+            open(os.path.join(aside, '.complete'), 'w').close()
+            try:
+                if os.path.isdir(vl_keep) and not os.path.exists(os.path.join(vl_keep, '.complete')):
+                    shutil.rmtree(vl_keep, ignore_errors=True)       # left over from an interrupted run
+                os.rename(aside, vl_keep)
+            except OSError:
+                shutil.rmtree(aside, ignore_errors=True)             # somebody else completed it first
         if vlsrc and os.path.isdir(vlsrc):
-            for f in os.listdir(vlsrc):
-                if f.endswith('.h'):
-                    shutil.copy(os.path.join(vlsrc, f), vl_keep)
             for k in out:
                 out[k] = [('-I' + vl_keep) if (a.startswith('-I') and 'Vhex_pkg.dir' in a) else a
                           for a in out[k]]
